@@ -37,6 +37,12 @@ CHECKS = {
  "C19": dict(engine="mon-sshd", cat="exploration", tech="Prometheus Gather() delta monitor on a private registry, per line",
    text="The C06 corpus and the C11 hostile corpus, one line at a time: an emitted UserLogin moves remote_logins_total by exactly one, under an outcome label matching the event and a method label matching the login kind; lines without a recognised keyword move nothing.",
    note="Single-threaded; counters read before and after each line.", ref="4 C19"),
+ "C12": dict(engine="mon-pipe", cat="exploration", tech="reference-split oracle over real FIFO streams under the race detector; callback-error injection at every record index",
+   text="Generated byte streams written to a real FIFO under five partitions with pauses; callback arguments must equal the delimiter-terminated records in order (modulo one trailing delimiter), the unterminated tail is never delivered, delivery stops at the injected callback error which is returned unchanged, end-of-stream is an error.",
+   note="Both delimiter conventions are accepted for the callback argument.", ref="4 C12"),
+ "C13": dict(engine="mon-pipe+mon-audit", cat="fault_enumeration", tech="state-confirmed cancellation injection with goroutine-dump hang classification; logical-clock check for deliveries after return; -race",
+   text="Worker x blocking state x downstream capacity enumerated; each state is confirmed from the goroutine dump before cancel(); the worker must return (stuck = parked after the watchdog, otherwise inconclusive) and nothing may be delivered after the observed return.",
+   note="A blocked output writer is not among the listed states and is not injected.", ref="4 C13"),
 }
 
 NOT_YET = {
